@@ -220,7 +220,7 @@ func (cfg *Config) paramExp(pe *syntax.ParamExp) (string, error) {
 		}
 		str = join(elems)
 	case pe.Exp != nil:
-		arg, err := Literal(cfg, pe.Exp.Word)
+		arg, err := cfg.expArg(pe.Exp)
 		if err != nil {
 			return "", err
 		}
@@ -332,6 +332,19 @@ func (cfg *Config) paramExp(pe *syntax.ParamExp) (string, error) {
 	return str, nil
 }
 
+// expArg expands the word of an expansion operator: as a pattern (quoted parts stay literal)
+// for the removal and case operators, as a plain string otherwise.
+func (cfg *Config) expArg(exp *syntax.Expansion) (string, error) {
+	switch exp.Op {
+	case syntax.RemSmallPrefix, syntax.RemLargePrefix,
+		syntax.RemSmallSuffix, syntax.RemLargeSuffix,
+		syntax.UpperFirst, syntax.UpperAll,
+		syntax.LowerFirst, syntax.LowerAll:
+		return Pattern(cfg, exp.Word)
+	}
+	return Literal(cfg, exp.Word)
+}
+
 func removePattern(str, pat string, fromEnd, shortest bool) string {
 	var mode pattern.Mode
 	if shortest {
@@ -371,7 +384,7 @@ func (cfg *Config) perElemOps(pe *syntax.ParamExp, elems []string) ([]string, er
 	case pe.Repl != nil:
 		return cfg.replaceElems(pe.Repl, elems)
 	case pe.Exp != nil:
-		arg, err := Literal(cfg, pe.Exp.Word)
+		arg, err := cfg.expArg(pe.Exp)
 		if err != nil {
 			return nil, err
 		}
